@@ -396,9 +396,10 @@ class Check:
         self._triage_aborted_rules()
         for rid, fl in self.floors.items():
             if counts.get(rid, 0) < fl:
-                if restructured and counts.get(rid, 0) > 0:
+                changed = restructured or self._any_consulted_change()
+                if changed and counts.get(rid, 0) > 0:
                     self.notes.append(f"rule {rid} matched {counts.get(rid, 0)} instance(s), fewer than the {fl} confirmed on the tree it was written "
-                                      f"for; functions it reads were restructured since ({', '.join(sorted(restructured))[:200]}), so this is reported, not failed")
+                                      f"for; code it reads changed since ({', '.join(sorted(changed))[:200]}), so this is reported, not failed")
                     continue
                 raise AnalysisError(
                     f"instance floor: rule {rid} matched {counts.get(rid, 0)} instance(s), "
@@ -468,6 +469,30 @@ class Check:
                 if best is None or f.lineno >= best[2].lineno:
                     best = (mod.name, q, f)
         return best
+
+    def _any_consulted_change(self) -> dict:
+        """{module:function -> reason} for functions of the consulted modules that differ from the reference tree at all (or are new, or
+        gone). Used only to decide whether an instance-floor shortfall is the tree's doing."""
+        from . import renames
+        tab = renames.table()
+        if not tab or os.environ.get("VERIF_NO_RENAMES"):
+            return {}
+        out = {}
+        for mod in self.repo.modules.values():
+            if mod.rel not in self.analysed_files or mod.name not in tab:
+                continue
+            have = {q: f for q, f in mod.functions()}
+            for q in tab[mod.name]:
+                if q not in have:
+                    out[f"{mod.name}:{q}"] = "gone"
+            for q, f in have.items():
+                if q not in tab[mod.name]:
+                    out[f"{mod.name}:{q}"] = "new"
+                elif renames.function_locals(f) != set(tab[mod.name][q]["locals"]) or (renames.edit_distance_to_reference(mod.name, q, f) or (0, 0))[0] >= 1:
+                    out[f"{mod.name}:{q}"] = "changed"
+            if len(out) > 5:
+                break
+        return out
 
     def _restructured_functions(self) -> dict:
         """{module:qualname -> reason} for every function looked up or reported on by this check that differs from the reference
@@ -720,6 +745,37 @@ def literal_of(test, taken):
         if isinstance(op, (ast.Is, ast.IsNot)):
             return f"{a} is {b}", pol if isinstance(op, ast.Is) else not pol
     return unparse(t).replace(" ", ""), pol
+
+
+def conditions_at(f, target):
+    """Decisions known to hold when `target` (a node inside f) executes: [(canonical text, polarity)] from the enclosing if-branches
+    and from earlier sibling ifs whose taken branch always leaves (return / raise / continue / break)."""
+    path = []
+    cur = target
+    parents = []
+    while getattr(cur, "_parent", None) is not None and cur is not f:
+        parents.append((cur._parent, cur))
+        cur = cur._parent
+    out = []
+
+    def leaves(body):
+        return bool(body) and isinstance(body[-1], (ast.Return, ast.Raise, ast.Continue, ast.Break))
+    for par, child in parents:
+        if isinstance(par, ast.If):
+            if child in par.body:
+                out.append(literal_of(par.test, True))
+            elif child in par.orelse:
+                out.append(literal_of(par.test, False))
+        for field in ("body", "orelse", "finalbody"):
+            lst = getattr(par, field, None)
+            if isinstance(lst, list) and child in lst:
+                for sib in lst[:lst.index(child)]:
+                    if isinstance(sib, ast.If):
+                        if leaves(sib.body) and not leaves(sib.orelse):
+                            out.append(literal_of(sib.test, False))
+                        elif sib.orelse and leaves(sib.orelse) and not leaves(sib.body):
+                            out.append(literal_of(sib.test, True))
+    return out
 
 
 def params(f) -> list[str]:
